@@ -54,4 +54,10 @@ TEXT.update({
   note="Trusted as C01. Known finding O-16 (legacy definitions next to $defs is refused) is outside the generated decorations.",
  ),
 })
+TEXT.update({
+ "C20": dict(
+  level="Theorems over a heap model of CloneSchemas (allocation, pointer graphs): the clone denotes the same tree, every object reachable from it is freshly allocated (disjoint from the original at every depth), the original objects are untouched. The model's 'subschema pointers of an object' are the fields of class *Schema / []*Schema / map[string]*Schema of the regenerated struct table. On the package the four laws (same bytes, no shared pointer, common parent resolves, mutation independence in both directions) are evaluated for every generated tree.",
+  note="The heap model abstracts the non-schema fields as an opaque payload copied by value (CloneSchemas shares their slices/maps, as documented). Trusted: reflection-driven iteration in the Go code corresponds to the model's kids list - exercised by forcing subschemas under every schema-holding field.",
+ ),
+})
 PENDING = {}
